@@ -7,14 +7,27 @@ import common as C
 from common import Failure, coq_list
 
 ID = "C04"
-GEN = ["gen_storer_wrappers"]
+GEN = ["gen_storer_wrappers", "gen_storer"]
+MODEL_INDEPENDENT_OF_PROOFS = True      # Model/Storer.v / StorerCheck.v contain no proofs and import nothing generated:
+                                        # the correspondence still runs when a translator aborts or a C04_source_* theorem breaks
 ALLOWED_AXIOMS = []
 TRUSTED = [
     "Coq 8.16.1 kernel + vm_compute (no native_compute)",
-    "hand model coq/Model/Storer.v of BaseStorer (filter wrappers, recount, particle_list, __add__), "
-    "_update_after_merge of the three classes, ParticleObjectStorer.__init__ and the loaders' hand-over "
-    "(closed form: selected events, constructor filters per event, rows (first label + j, size)); tied to the "
-    "real classes by this run's correspondence on generated Oscar / Jetscape files and particle-object lists",
+    "translator tools/py2coq/gen_storer.py (fail-closed, Python ast; control flow by tools/py2coq/pyfrag.py): regenerates on every "
+    "run, statement by statement, BaseStorer._update_num_output_per_event_after_filter, particle_list, num_events, "
+    "num_output_per_event, particle_objects_list, __add__, every filter wrapper (all must translate to one term), "
+    "_update_after_merge of Oscar / Jetscape / ParticleObjectStorer, the recount of ParticleObjectStorer.__init__, and the tables "
+    "of the loader hand-over (targets of BaseStorer.__init__'s tuple assignment, return tuples of the three loaders' load()); "
+    "it aborts when a subclass overrides one of the BaseStorer methods above",
+    "Python/numpy fragment coq/Model/StorerRt.v over which the translation is stated (dynamically typed values; getattr/setattr "
+    "on the state record; x[i], x[i][j], x[i, j], x[:, j], x[n:, j] += v, .size/.ndim, np.ndarray/np.empty((n,2)) as zeros, "
+    "reshape(-1,2), np.concatenate, astype(int), list + and append, range/enumerate, int arithmetic, float mean with Qred, "
+    "exception classes of each operation): hand-written, small, every operation total; what it does not describe is Err OtherError",
+    "hand model coq/Model/Storer.v: its recount, filter wrapper, particle_list, __add__, merge hooks and ParticleObjectStorer "
+    "recount are PROVED EQUAL to the regenerated source (C04_source_*) and additionally run against the real classes; its loader "
+    "hand-over in closed form (load_file / pobj_loader: selected events, constructor filters per event, rows (first label + j, "
+    "size)) remains hand-written and tied to the real classes by this run's correspondence on generated Oscar / Jetscape files "
+    "and particle-object lists (the read loops themselves are C01/C02)",
     "translator tools/py2coq/gen_storer_wrappers.py (tables extractor, fail-closed): accepts the filter methods of BaseStorer / "
     "Oscar / Jetscape / ParticleObjectStorer only in the form `particle_list_ = f(particle_list_, args); recount; return self` "
     "or `raise NotImplementedError`",
@@ -24,15 +37,24 @@ TRUSTED = [
 ]
 ASSUMPTIONS = [
     "operand-unchanged / aliasing claims of + are vacuous in a functional model: checked by deep snapshots of the "
-    "real operands before and after every + (and at the end of each history) in the correspondence and the oracle",
+    "real operands before and after every + (and at the end of each history) in the correspondence and the oracle; from the "
+    "source only the syntactic table C04_source_add_assigned is extracted (every attribute assigned on the sum comes from an "
+    "object __add__ builds itself: a + b, a call, a constant - never from a name/attribute an operand holds)",
     "admissible operation = a filter call that Filter.py accepts (valid argument, method implemented for the class) "
     "or + of a storer of the same class (and same Jetscape particle type)",
+    "translation conventions: attributes of a constructed storer are never None (the `is None` guards of the translated "
+    "methods are translated as written and are dead; the defaults they assign to an operand of + are not propagated back "
+    "to the caller's object); `isinstance(other, BaseStorer)` is true of every storer; method resolution is Python's (each "
+    "class defines _update_after_merge in its own body, nothing else in a class body rebinds the translated names); a "
+    "particle is its identity and _particle_as_list(p) is named by p (the row contents are C06's subject); strings that are "
+    "only compared are tokens; sigmaGen_[1] is pinned by its source text and not modelled; warnings change no state; "
+    "uninitialised np.ndarray memory is zeros (every row is overwritten by the translated loop, which C04_source_recount uses)",
     "the loaders' hand-over is modelled in closed form (selected events, constructor filters per event, an event emptied by "
     "the filters is dropped unless it was empty in the file, rows (first label + j, size), E0 = ([[]], 0, array([])) when "
     "nothing is left); files number their events 0..n-1 (Oscar) / 1..n (JETSCAPE) as SMASH / JETSCAPE write them; the read "
     "loops and the line arithmetic are C01/C02",
-    "extras: Oscar event_end_lines_ and Jetscape sigmaGen_[0] are modelled and compared, sigmaGen_[1] (a sqrt) and "
-    "impact_parameters_ are not",
+    "extras: Oscar event_end_lines_ and Jetscape sigmaGen_[0] are modelled, translated from the merge hooks and compared "
+    "(the oracle states what the hooks document: a's lines then b's, the mean), sigmaGen_[1] (a sqrt) and impact_parameters_ are not",
 ]
 
 PDGS = [211, -211, 111, 2212, 2112, 22, 321, 3122, 11, 13]
@@ -403,10 +425,15 @@ class Engine:
                     except Exception as e:
                         tr["ops"].append({"kind": "PL", "keep": []})
                         new_mirror = None
+                    lab0 = self.labels(s)
                     try:
                         r = getattr(s, name)(*pyargs(name, args))
                         if r is not s:
                             self.viol.append(f"{where}: the filter method does not return self")
+                        lab1 = self.labels(s)
+                        if lab0 and lab1 and lab0[0] != lab1[0] and mirror is not None:
+                            self.viol.append(f"{where}: the filter changed the first event label from {lab0[0]} to {lab1[0]} "
+                                             "(the recount labels the events first label + position)")
                     except Exception as e:
                         tr["steps"].append({"err": errname(e)})
                         if not (len(st) > 3 and st[3] == "reject"):
@@ -441,6 +468,14 @@ class Engine:
                             frozen.append((other, sb))
                             mirror = [list(e) for e in ha] + [list(e) for e in hb]
                             if st[-1] != "reject":
+                                # the merge hooks (translated by gen_storer.py): Oscar keeps a's footer lines then b's,
+                                # Jetscape averages sigmaGen_[0]
+                                if type(s).__name__ == "Oscar" and list(c.event_end_lines_) != list(sa[4]) + list(sb[4]):
+                                    self.viol.append(f"{where}: merge hook: event_end_lines_ of a+b are not a's followed by b's")
+                                if type(s).__name__ == "Jetscape" and len(sa[5]) == 2 and len(sb[5]) == 2 \
+                                        and not same(float(c.sigmaGen_[0]), (sa[5][0] + sb[5][0]) / 2.0):
+                                    self.viol.append(f"{where}: merge hook: sigmaGen_[0] of a+b is {c.sigmaGen_[0]!r}, not the mean of "
+                                                     f"{sa[5][0]!r} and {sb[5][0]!r}")
                                 labs = np.asarray(c.num_output_per_event())
                                 if labs.ndim == 2 and labs.shape[0] == len(la) + len(lb):
                                     want = la + (list(range(la[-1] + 1, la[-1] + 1 + len(lb))) if la else lb)
@@ -763,12 +798,69 @@ def stress_cases():
     return out
 
 
+def probe_cases():
+    """inputs aimed at the constants and branches tools/py2coq/gen_storer.py extracts from the storer methods: the label
+    arithmetic of the recount (first label + position) on partially loaded objects, the num_events_ update and the
+    [] -> [[]] rewrite after event-level cuts, particle_list() for 0 / 1 / several events, the label continuation,
+    the order of concatenation, the no-events operands and the merge hooks of +, chains of + (associativity)"""
+    import random
+    rng = random.Random(11)
+    out = []
+    for cls in ("oscar", "jetscape", "pobj"):
+        def mk(di, sizes, sigma=0.5):
+            evs, pid = [], 100 * (di + 1)
+            for m in sizes:
+                ev = []
+                for _ in range(m):
+                    pid += 1
+                    ev.append(gen_particle(rng, pid))
+                evs.append(ev)
+            d = {"cls": cls, "events": evs, "sel": None, "filters": None, "hist": []}
+            if cls == "jetscape":
+                d["sigma"], d["ptype"] = sigma, "hadron"
+            return d
+        big, none = ["multiplicity_cut", [[1, None]]], ["multiplicity_cut", [[99, None]]]
+        ch = ["charged_particles", []]
+        # recount on a partially loaded object: labels must stay first label + position
+        a = mk(0, [2, 0, 3, 1, 2]); a["sel"] = [1, 4]
+        a["hist"] = [["f"] + ch, ["f"] + big, ["f", "uncharged_particles", []], ["f"] + big, ["f"] + ch]
+        out.append({"defs": [a]})
+        # a single event (flat particle_list), filtered, doubled, cut
+        a = mk(0, [1, 3, 2]); a["sel"] = 1
+        a["hist"] = [["f"] + ch, ["addself"], ["f"] + big, ["addself"], ["f"] + none, ["f"] + ch, ["addself"]]
+        out.append({"defs": [a]})
+        # chains of +: continuation after partially loaded operands, both orders, associativity, merge hooks
+        a = mk(0, [2, 1, 3, 2], 0.5); a["sel"] = [2, 3]
+        b = mk(1, [1, 2, 2], 0.25); b["sel"] = 1
+        c = mk(2, [3, 0, 1], 1.5)
+        c["hist"] = [["add", 0], ["add", 1], ["f"] + big, ["add", 1], ["add", 0], ["f"] + ch]
+        out.append({"defs": [a, b, c]})
+        b2 = copy.deepcopy(b); b2["hist"] = [["add", 0], ["addself"], ["f"] + big]
+        out.append({"defs": [a, b2]})
+        # operands without events, on either side and on both
+        e = mk(1, [1, 1], 0.75); e["hist"] = [["f"] + none]
+        f = mk(2, [2, 1], 1.5); f["filters"] = [none]
+        g = mk(3, [2, 3], 0.25); g["sel"] = 1
+        g["hist"] = [["add", 1], ["add", 2], ["f"] + ch, ["add", 0], ["f"] + none, ["add", 1], ["add", 0], ["f"] + big]
+        out.append({"defs": [a, e, f, g]})
+        e2 = copy.deepcopy(e); e2["hist"] = [["f"] + none, ["add", 0], ["f"] + ch, ["addself"]]
+        out.append({"defs": [a, e2]})
+        e3 = copy.deepcopy(e); e3["hist"] = [["f"] + none, ["addself"], ["f"] + ch, ["add", 0]]
+        f3 = copy.deepcopy(f); f3["hist"] = [["add", 1], ["add", 0], ["add", 1]]
+        out.append({"defs": [a, e3, f3]})
+        # a sum that loses its first events, then grows again
+        h = mk(1, [0, 2, 0, 1], 0.25); h["sel"] = [1, 3]
+        h["hist"] = [["add", 0], ["f"] + big, ["f"] + ch, ["add", 0], ["f"] + big, ["addself"]]
+        out.append({"defs": [a, h]})
+    return out
+
+
 def nontrivial(case):
     return any(len(d["hist"]) >= 2 and sum(len(e) for e in d["events"]) >= 2 for d in case["defs"])
 
 
 def correspondence(ctx, model_ok=True):
-    cases = corpus_cases() + stress_cases()
+    cases = corpus_cases() + stress_cases() + probe_cases()
     n = len(cases) + (400 if ctx.quick else 6000)
     k = 0
     while len(cases) < n:
@@ -864,6 +956,10 @@ def finding_key(msg):
         return "C04-add-mutates-operand"
     if "a+(b+c)" in msg:
         return "C04-add-not-associative"
+    if "first event label" in msg:
+        return "C04-filter-changes-first-label"
+    if "merge hook" in msg:
+        return "C04-merge-hook"
     if "+ raises" in msg:
         return "C04-add-raises"
     if "ndarray (2,)" in msg:
@@ -885,7 +981,7 @@ def finding_key(msg):
 def search(ctx):
     found, n = [], 0
     budget = 300 if ctx.quick else 3000
-    for c in stress_cases():
+    for c in probe_cases() + stress_cases():
         n += 1
         msg = oracle(c)
         if msg:
@@ -983,14 +1079,31 @@ LEVEL_TEXT = ("Theorems (Coq, closed under the global context, for ALL finite hi
               "additions preserves the invariant (num_events = number of events held, 2-D count array with counts = event sizes "
               "and consecutive labels from the first label; or the no-events state), never raises, particle_list() mirrors the "
               "held events, the contents equal the same operations on the plain nested list; a+b = a's events then b's, labels "
-              "continuing after a's last, associative in events, counts, labels. The hand model is run against the real classes "
-              "after every step of generated histories on every check.")
-LEVEL_NOTE = ("Trusted: Coq kernel/vm_compute; the hand model Model/Storer.v (validated by correspondence only, exact comparison "
-              "of values AND numpy array shapes / exception classes); that Filter.py's functions are map-f / filter-keep is C03's "
-              "theorem. Aliasing ('+ leaves a and b unchanged') is checked by deep snapshots on the real objects, not proved. "
-              "The no-events placeholder [[]] is not an event: contents are compared as the events held (num_events()==0 <-> []); "
-              "an event-level cut applied to an object without events leaves it without events. sigmaGen_[1], impact_parameters_ "
-              "and the writers are outside C04.")
+              "continuing after a's last, associative in events, counts, labels. SOURCE TIE (C04_source_*, 13 theorems): the "
+              "model's recount, filter wrapper, particle_list, accessors, __add__, the three _update_after_merge hooks and the "
+              "ParticleObjectStorer recount are proved equal - for every state, inside or outside the invariant, including the "
+              "exception class - to Gallina functions regenerated statement by statement from the current source on every run "
+              "(C04_source_recount / _filter_method / _particle_list / _accessors / _update_after_merge / _add / _pobj_init / "
+              "_load_pobj), histories run on the translated methods are the model's histories (C04_source_run) and therefore "
+              "satisfy the property theorems (C04_source_history); tables: C04_source_add_assigned, C04_source_handover. The hand "
+              "model is also run against the real classes after every step of generated histories on every check.")
+LEVEL_NOTE = ("Trusted: Coq kernel/vm_compute; the translator gen_storer.py + pyfrag.py and the Python/numpy fragment "
+              "Model/StorerRt.v (hand-written semantics of the ~30 operations the methods use: indexing, slicing, .size/.ndim, "
+              "reshape, concatenate, append, int arithmetic, exception classes); the model's loader hand-over (load_file, "
+              "pobj_loader: closed form, validated by correspondence only, exact comparison of values AND numpy array shapes / "
+              "exception classes); that Filter.py's functions are map-f / filter-keep is C03's theorem. NOT regenerated: "
+              "BaseStorer.__init__ beyond the order of its tuple assignment, Oscar/Jetscape.__init__, the loaders (C01/C02), "
+              "_particle_as_list and the writers (C06), sigmaGen_[1] (pinned by text). Aliasing ('+ leaves a and b unchanged') is "
+              "checked by deep snapshots on the real objects, not proved. C04_source_particle_list is up to Python's view of the "
+              "result (a flat and a nested empty list are both []). The no-events placeholder [[]] is not an event: contents are "
+              "compared as the events held (num_events()==0 <-> []); an event-level cut applied to an object without events "
+              "leaves it without events. impact_parameters_ and the writers are outside C04. A source edit outside the accepted "
+              "grammar (e.g. a while loop) aborts the translator and is reported even when behaviour is unchanged "
+              "(no-failing-input-found); renaming locals and reordering independent statements are tolerated.")
 TECHNIQUE = ("Coq proof: representation invariant + refinement to the plain-list semantics by induction over operation lists, "
-             "filters as universally quantified functions; vm_compute correspondence of the executable hand model with the real "
-             "storer classes after every step of random histories; property oracle with deep snapshots on the real objects")
+             "filters as universally quantified functions; source tie: fail-closed statement-level translation of the method "
+             "bodies (Python ast -> Gallina over a dynamically typed Python/numpy fragment, loops as monadic folds with "
+             "loop-carried variables) and proofs `model = translated source` by case analysis on the array shape plus loop "
+             "lemmas stated through the behaviour of the generated loop body on one index (so they survive renamings / "
+             "re-nestings); vm_compute correspondence of the executable hand model with the real storer classes after every "
+             "step of random and targeted histories; property oracle with deep snapshots on the real objects")
